@@ -1,4 +1,5 @@
 """C17 - Concurrent[...] handlers select exactly the documented sets of failures."""
+import gc
 import itertools
 from usim import Concurrent
 
@@ -144,7 +145,12 @@ def explore_case(case, tier):
         else:
             hs = handlers()[case['lo']:case['hi']]
             real_h = [real(h) for h in hs]
+            exc = None
             for kinds in raised():
+                # the handlers live as long as this case, every failure and its class die before the next one is made: the
+                # verdict may depend only on the types involved, not on what the handler was asked before
+                del exc
+                gc.collect()
                 exc = Concurrent(*[instance(k) for k in kinds])
                 ctype = C(set(kinds)) if kinds else BARE
                 for h, rh in zip(hs, real_h):
